@@ -497,14 +497,14 @@ Section Journal.
     | o :: ops' => run ops' (last_state (fst (op_states o s)) s)
     end.
 
-  (* per-op results of a history: (ok, writer offset after, bytes on disk after) *)
-  Fixpoint run_obs (ops : list op) (s : wstate) : list (bool * N * N) :=
+  (* per-op results of a history: (ok, writer offset after, bytes on disk after, bytes fsync'ed when the call returns) *)
+  Fixpoint run_obs (ops : list op) (s : wstate) : list (bool * N * N * N) :=
     match ops with
     | [] => []
     | o :: ops' =>
       let '(l, ok) := op_states o s in
       let s' := last_state l s in
-      (ok, lenN (w_file s') + lenN (w_buf s'), lenN (w_file s')) :: run_obs ops' s'
+      (ok, lenN (w_file s') + lenN (w_buf s'), lenN (w_file s'), w_synced s') :: run_obs ops' s'
     end.
 
   (* journalWriter.Close: flush (then Sync) *)
